@@ -16,6 +16,14 @@ for d in $V/overlay/types/*.go; do
   n=$(basename $d .go)
   SRCADD="$SRCADD,/repo/types/$n/zz_verif_export.go=$d"
 done
+# Testing aid (tools/seedcheck.sh): VERIF_MUT_DIR names a full copy of /repo with a candidate change applied; its
+# differing non-test .go files are laid over /repo's through the same source overlay, so /repo itself stays untouched
+# and several changes can be tried in parallel.  Never set by a registered command: checks judge /repo's working tree.
+if [ -n "${VERIF_MUT_DIR:-}" ]; then
+  while read -r rel; do
+    SRCADD="$SRCADD,/repo/$rel=$VERIF_MUT_DIR/$rel"
+  done < <(cd "$VERIF_MUT_DIR" && find . -name '*.go' ! -name '*_test.go' ! -path './_*' ! -path './.git/*' | sed 's#^\./##' | while read -r f; do cmp -s "$f" "/repo/$f" || echo "$f"; done)
+fi
 rm -f $S/overlay.json
 $V/bin/chanxform -q -goprefix lib: -dir /repo -out $S/src -overlay $S/overlay.json -bufconst EventBufsiz=$BUF -srcadd "$SRCADD" $REPO_PKGS
 $V/bin/chanxform -q -dir $V -out $S/src -overlay $S/overlay.json -srcadd "$SRCADD" ./harness/...
